@@ -1,3 +1,4 @@
+import KM.Gen.Pins
 import KM.Model.Seal
 import KM.Gen.Routes
 /-! # C09 — a sealed server signs nothing; only the right passphrase unseals it, once -/
@@ -140,3 +141,22 @@ example : (run { correct := 7, signerKey := 1, edKey := some 2 } init
   decide
 
 end KM.Seal
+
+-- BEGIN PINS (written by bin/update-pins.py)
+namespace KM.Seal
+
+/-- **Source pins** (regenerated): SHA-256 (first 80 bits) of the signature and body, whitespace-normalised,
+of the functions `KM.Seal.inject` collapses into one atomic step — equal to the values recorded when the model was last
+read against the code. Any edit, harmless or not, breaks this tie. -/
+theorem c09_source_pins :
+    KM.Gen.Pins.unsealCA = "16e41b1bc90e6780513c" ∧
+    KM.Gen.Pins.secretInjectorHandler = "1ae090057f1e8143c30e" ∧
+    KM.Gen.Pins.loadSignersFromPemData = "45e7c1e1ed2a3e9459b3" ∧
+    KM.Gen.Pins.signerPublicKeyToKeymasterKeys = "006bc740bfba4a215d6c" ∧
+    KM.Gen.Pins.readyzHandler = "f7e9f069a9610273fc66" ∧
+    KM.Gen.Pins.isUnsealed = "76c391d95d49bcc66ff4" ∧
+    KM.Gen.Pins.pgpDecryptFileData = "e845003d3fa5bac59ac8" := by
+  exact ⟨rfl, rfl, rfl, rfl, rfl, rfl, rfl⟩
+
+end KM.Seal
+-- END PINS
